@@ -58,6 +58,9 @@ type Case struct {
 	Policy    track.Policy
 	// Lite: use the cheap per-case allocator instead of verif/track (see lite.go).
 	Lite bool
+	// Move: an Append / Realloc that outgrows the buffer's capacity relocates it (new handle, the
+	// old one freed and poisoned), as mempool.NewAligned does when a size class is outgrown.
+	Move bool
 	// Probe: after an error (and the engine's reaction, CloseAndClean) keep feeding the rest of
 	// the stream plus one valid message and record what the parser does (C08).
 	Probe bool
@@ -74,14 +77,14 @@ func (c *Case) Pieces() int {
 // ReqDump is what the handler saw (Real mode, server side).
 type ReqDump struct {
 	Method, RequestURI, Path, RawQuery, Proto string
-	Major, Minor                            int
-	Host                                    string
-	Header                                  http.Header
-	Body                                    []byte
-	Trailer                                 http.Header
-	Close                                   bool
-	ContentLength                           int64
-	At                                      int // bytes fed to the parser when the handler ran
+	Major, Minor                              int
+	Host                                      string
+	Header                                    http.Header
+	Body                                      []byte
+	Trailer                                   http.Header
+	Close                                     bool
+	ContentLength                             int64
+	At                                        int // bytes fed to the parser when the handler ran
 }
 
 // ResDump is what the client callback saw (Real mode, client side).
@@ -245,12 +248,12 @@ func (c *fakeConn) SetWriteDeadline(time.Time) error { return nil }
 
 type recProc struct{ s *runState }
 
-func (p *recProc) OnMethod(_ *nbhttp.Parser, m string)       { p.s.ev("M", m) }
-func (p *recProc) OnURL(_ *nbhttp.Parser, u string) error    { p.s.ev("U", u); return nil }
-func (p *recProc) OnProto(_ *nbhttp.Parser, v string) error  { p.s.ev("P", v); return nil }
+func (p *recProc) OnMethod(_ *nbhttp.Parser, m string)        { p.s.ev("M", m) }
+func (p *recProc) OnURL(_ *nbhttp.Parser, u string) error     { p.s.ev("U", u); return nil }
+func (p *recProc) OnProto(_ *nbhttp.Parser, v string) error   { p.s.ev("P", v); return nil }
 func (p *recProc) OnStatus(_ *nbhttp.Parser, c int, s string) { p.s.ev("S", strconv.Itoa(c), s) }
-func (p *recProc) OnHeader(_ *nbhttp.Parser, k, v string)    { p.s.ev("H", k, v) }
-func (p *recProc) OnContentLength(_ *nbhttp.Parser, n int)   { p.s.ev("L", strconv.Itoa(n)) }
+func (p *recProc) OnHeader(_ *nbhttp.Parser, k, v string)     { p.s.ev("H", k, v) }
+func (p *recProc) OnContentLength(_ *nbhttp.Parser, n int)    { p.s.ev("L", strconv.Itoa(n)) }
 func (p *recProc) OnBody(_ *nbhttp.Parser, d []byte) error {
 	p.s.t.Use(d, "OnBody")
 	p.s.ev("B", string(d))
@@ -437,9 +440,11 @@ func Run(c *Case, dump bool) *Result {
 	var lt *lite
 	if c.Lite {
 		lt = newLite(c.Policy)
+		lt.move = c.Move
 		t = lt
 	} else {
 		tt = track.New(c.Policy)
+		tt.MoveOnGrow = c.Move
 		t = tt
 	}
 	mempool.DefaultMemPool = t
@@ -613,6 +618,7 @@ type CaseInput struct {
 	MaxBody   int    `json:"max_body,omitempty"`
 	Policy    string `json:"policy"`
 	Lite      bool   `json:"lite,omitempty"`
+	Move      bool   `json:"move,omitempty"`
 	Probe     bool   `json:"probe,omitempty"`
 	Note      string `json:"note,omitempty"`
 }
@@ -620,7 +626,7 @@ type CaseInput struct {
 // Input converts a case to its replayable form.
 func (c *Case) Input(note string) *CaseInput {
 	return &CaseInput{Stream: strconv.Quote(string(c.Stream)), Cuts: append([]int(nil), c.Cuts...), Every: c.Every, Client: c.Client,
-		Mode: c.Mode.String(), ReadLimit: c.ReadLimit, MaxBody: c.MaxBody, Policy: c.Policy.String(), Lite: c.Lite, Probe: c.Probe, Note: note}
+		Mode: c.Mode.String(), ReadLimit: c.ReadLimit, MaxBody: c.MaxBody, Policy: c.Policy.String(), Lite: c.Lite, Move: c.Move, Probe: c.Probe, Note: note}
 }
 
 // Case converts back.
@@ -629,7 +635,7 @@ func (in *CaseInput) Case() (*Case, error) {
 	if err != nil {
 		return nil, err
 	}
-	c := &Case{Stream: []byte(s), Cuts: in.Cuts, Every: in.Every, Client: in.Client, ReadLimit: in.ReadLimit, MaxBody: in.MaxBody, Probe: in.Probe, Lite: in.Lite}
+	c := &Case{Stream: []byte(s), Cuts: in.Cuts, Every: in.Every, Client: in.Client, ReadLimit: in.ReadLimit, MaxBody: in.MaxBody, Probe: in.Probe, Lite: in.Lite, Move: in.Move}
 	if in.Mode == "real" {
 		c.Mode = Real
 	}
